@@ -16,6 +16,7 @@ import (
 	"github.com/trustbloc/sidetree-core-go/pkg/jws"
 	"github.com/trustbloc/sidetree-core-go/pkg/util/ecsigner"
 	"github.com/trustbloc/sidetree-core-go/pkg/util/edsigner"
+	"github.com/trustbloc/sidetree-core-go/pkg/util/pubkey"
 	"github.com/trustbloc/sidetree-core-go/pkg/verifhooks"
 	"pgregory.net/rapid"
 
@@ -537,6 +538,55 @@ func TestShortScalars(t *testing.T) {
 		}
 		if foundR == 0 || foundS == 0 {
 			t.Fatalf("harness: no leading-zero r/s signature found for %s in 4000 payloads", kt)
+		}
+	}
+}
+
+// TestLibraryJWK: "the matching public JWK" is, for a caller, the one the library's own conversion hands out
+// (pubkey.GetPublicKeyJWK); it must verify what the key signed - also for keys with a coordinate that starts with a
+// zero byte (one in 128), which a conversion that drops the padding spells one byte short (seeding round m).
+func TestLibraryJWK(t *testing.T) {
+	ev.Rule(chkSweep, "library JWK: for each key type the first key of the pool and up to 3 keys (among 600) with a coordinate starting with a zero byte are converted with pubkey.GetPublicKeyJWK; oracle: a genuine JWS (independent assembler and library signer) verifies under that JWK, and the JWK equals the reference one member by member; non-trivial = a leading-zero key")
+	item := 0
+	for _, kt := range keys.AllTypes {
+		item++
+		if !ev.Mine(item) {
+			continue
+		}
+		ks := []*keys.Key{keys.Get(kt, "c09-libjwk", 1)}
+		lz := keys.LeadingZero(kt, "c09-libjwk", 600)
+		if len(lz) > 3 {
+			lz = lz[:3]
+		}
+		ks = append(ks, lz...)
+		for i, k := range ks {
+			var pub interface{}
+			if kt == keys.Ed25519 {
+				pub = k.Ed25519Public()
+			} else {
+				pub = k.ECDSAPublic()
+			}
+			j, err := pubkey.GetPublicKeyJWK(pub)
+			if err != nil {
+				ev.Fail(t, chkSweep, "C09/genuine-rejected", "C09/genuine-rejected/library-jwk", map[string]interface{}{"key": k.ID()}, "pubkey.GetPublicKeyJWK fails for a valid %s key %s: %v", kt, k.ID(), err)
+				continue
+			}
+			lib := JWK{Kty: j.Kty, Crv: j.Crv, X: j.X, Y: j.Y}
+			for _, builder := range []string{"asm", "lib"} {
+				g, err := build(k, builder, "", nil, []byte(`{"libraryJwk":true}`))
+				if err != nil {
+					t.Fatalf("cannot build genuine JWS: %v", err)
+				}
+				c := &Case{Compact: g.compact, Key: lib, Accept: true, Note: fmt.Sprintf("genuine under the JWK handed out by pubkey.GetPublicKeyJWK: %s builder=%s", k.ID(), builder)}
+				kind, msg := evalCase(c)
+				ev.Record(chkSweep, i > 0, ev.Hash(c.Compact, c.Key), "class:library-jwk", "keytype:"+kt.String(), fmt.Sprintf("leading-zero-coordinate:%v", i > 0), "expect-accept:true")
+				if kind != "" {
+					ev.Fail(t, chkSweep, kind, kind+"/library-jwk", c, "%s", msg)
+				}
+			}
+			if want := jwkOf(k); lib != want {
+				ev.Fail(t, chkSweep, "C09/genuine-rejected", "C09/genuine-rejected/library-jwk-differs", map[string]interface{}{"key": k.ID(), "got": lib, "want": want}, "pubkey.GetPublicKeyJWK(%s) = %+v, reference JWK %+v", k.ID(), lib, want)
+			}
 		}
 	}
 }
